@@ -121,7 +121,7 @@ def run(p, report, tier):
                 "the batch size is clipped to the number of candidate pairs", floor=4)
     report.rule("R7.2", "every definition of the availability mask A_cand has a boolean element type by construction "
                 "(np.full(shape, True|False), comparison, is_unlabeled, boolean slice, dtype=bool); a constructor "
-                "inheriting the dtype of y is reported", floor=8)
+                "inheriting the dtype of y is reported", floor=6)
     report.rule("R7.3", "unavailable pairs are NaN before utilities are combined; in _query_annotators every chosen "
                 "pair is NaN in all later steps and the mask precedes the next selection (R1.4/R2.1)", floor=3)
     report.rule("R7.4", "every while loop of the package is in the syntactically terminating class (V1 bounded "
